@@ -17,7 +17,9 @@ public:
 
     template<typename T, typename ...Args>
     typename std::enable_if_t<!Runnable::isRunnable<T>::value, void> start(T ptr, Args&&... args) {
-        m_thread = std::thread([&]() {
+        // the callable is copied into the closure: `ptr` is a parameter of this function and is
+        // gone when the new thread gets to run
+        m_thread = std::thread([&, ptr]() mutable {
             ptr(std::forward<Args>(args)...);
             m_isFinished = true;
         });
